@@ -86,7 +86,13 @@ func (rn *runner) familyFloors() {
 		"conn:request": 10, "conn:notification": 10, "conn:request-response-cannot-be-written": 10, "conn:ws-push": 8,
 		"ws-limit:c:0": 1, "ws-limit:c:1": 5, "ws-limit:u:1": 5, "register:ok": 100, "register:err:paramCount": 1000,
 		"register:err:returnCount": 500, "register:err:secondNotError": 40, "register:err:thirdNotError": 100,
-		"register:err:secondNotHeader": 50, "register:err:notFunc": 2, "register:list": 200}
+		"register:err:secondNotHeader": 50, "register:err:notFunc": 2, "register:list": 200,
+		// round 5
+		"concurrent-actors:HandleReader": 50, "concurrent-actors:http-gzip": 100, "concurrent-actors:http": 50, "concurrent-actors:ws": 100, "concurrent-actors:slow-reader": 100,
+		"events:inputs": 500, "events:OnRequestFailed": 30, "events:OnRequestHandled": 300, "events:header-returned": 80,
+		"events:header-merged-from-several-entries": 10, "events:http:POST": 150, "events:http:gzip-body": 40,
+		"events:http:content-length-set": 40, "events:http:content-type-overridden-by-handler": 2,
+		"log:trace-inputs": 500, "log:line:Received request": 400, "log:line:Failed handing RPC request": 20}
 	counts := rn.res.Distribution
 	for k, min := range floors {
 		if counts[k] < min {
@@ -520,6 +526,7 @@ func main() {
 		"jsonrpc.HTTP / jsonrpc.Websocket); non-trivial = distinct input whose first JSON value parses and is an object or an array")
 	if os.Getenv("C11_MODE") == "conc" { // child of the thorough tier, built with -race
 		concurrentStage(res, f.Seed, false)
+		concSeqStage(res, f.Seed, false)
 		lib.Finish(f, res)
 	}
 	// The harness never ends without a result: whatever the server under test does (panic, hang, dropped
@@ -715,12 +722,15 @@ func main() {
 	rn.connTie()
 	// 4c. RegisterMethods on every handler signature shape (round 4)
 	rn.registerTie(r.Fork(8086))
+	// 4d. listener calls, headers, logging at trace level (round 5)
+	rn.eventsTie(r.Fork(5150))
 	// 5. request deadlines while batch entries queue for a pool slot
 	rn.deadlines(r.Fork(777))
 	// 6. handlers that fail, over the transports
 	rn.faultyTransports()
 	// 7. concurrent clients on one server (thorough: again under the race detector)
 	concurrentStage(res, f.Seed, f.Thorough())
+	concSeqStage(res, f.Seed, f.Thorough())
 	waitLimit()
 	if f.Thorough() {
 		raceChild(res, f)
